@@ -85,7 +85,7 @@ func slabVer(s atree.Slab) string {
 
 func (e *storEnv) violation(prop, what string) {
 	e.st.Violations = append(e.st.Violations, hx.Violation{
-		Property: prop, Stream: e.st.Stream, Seed: e.cfg.Seed, Program: e.prog, Step: e.step, What: what, Trace: e.w.Path,
+		Property: prop, Stream: e.st.Stream, Seed: e.cfg.Seed, Program: e.prog, Step: e.step, What: what, Trace: e.w.Path, Line: e.w.Lines,
 	})
 }
 
